@@ -18,6 +18,6 @@ w=sys.argv[1]; print(json.dumps({"Replace":{"/repo/"+f: w+"/"+f for f in sys.arg
 PY
 cd /verif
 for prop in $props; do
-  VERIF_OVERLAY=$w/ov.json ./bin/gocv check --property $prop --no-evidence 2>&1 | grep "^VIOLATION\|obligations discharged\|KNOWN\|^error" | cut -c1-330
+  VERIF_OVERLAY=$w/ov.json ./bin/gocv check --property $prop --no-evidence 2>&1 | grep "^VIOLATION\|obligations discharged\|KNOWN\|^error"
 done
 rm -rf $w
